@@ -110,7 +110,12 @@ TCase == l <= Len(Rec) /\ Rec[l].ev = "PrintCase" /\ CaseOK(Rec[l]) /\ l' = l + 
 TSink == l <= Len(Rec) /\ Rec[l].ev = "SinkChild" /\ Rec[l].ok
          /\ (IF Rec[l].mode = "sink" THEN Rec[l].stdout_len = 0 ELSE Rec[l].stdout_len > 0)
          /\ l' = l + 1 /\ UNCHANGED <<target, verbose, logs, hist>>
-TSpec == DInit /\ [][TCase \/ TSink]_pvars
+\* a single-precision solve: the header names the precision in use, the table has the usual shape
+TF32 == l <= Len(Rec) /\ Rec[l].ev = "PrintF32"
+        /\ Rec[l].precision = "32" /\ Rec[l].n = 2 /\ Rec[l].m = 3
+        /\ RowsOK(Rec[l])
+        /\ l' = l + 1 /\ UNCHANGED <<target, verbose, logs, hist>>
+TSpec == DInit /\ [][TCase \/ TSink \/ TF32]_pvars
 TraceAccepted ==
   LET n == TLCGet("stats").diameter - 1 IN
   IF n = Len(Rec) THEN TRUE
